@@ -155,6 +155,9 @@ int main(int argc,char **argv){
             if(fabs(got-want)>1.0+hs)printf("prop timeseek FAIL t=%.9g want=%.3f got=%.0f\n",t,want,got); } } }
       else if(!strncmp(tk,"tp:",3)){ rc=ov_time_seek_page(&vf,atof(tk+3)); isseek=1; }
       else if(!strncmp(tk,"pl:",3)){ rc=ov_pcm_seek_lap(&vf,atol(tk+3)); isseek=1; }
+      else if(!strncmp(tk,"ql:",3)){ rc=ov_pcm_seek_page_lap(&vf,atol(tk+3)); isseek=1; }
+      else if(!strncmp(tk,"rl:",3)){ rc=ov_raw_seek_lap(&vf,atol(tk+3)); isseek=1; }
+      else if(!strncmp(tk,"tl:",3)){ rc=ov_time_seek_lap(&vf,atof(tk+3)); isseek=1; }
       else if(!strncmp(tk,"hr:",3)){ rc=ov_halfrate(&vf,atoi(tk+3)); if(rc==0){ int nh=atoi(tk+3)?1:0; if(nh!=ref_hs){ ref_free(); reference_decode(file,n,nh,0);} hs=nh; } }
       else if(!strncmp(tk,"rf:",3)||!strncmp(tk,"ri:",3)){
         float **p=NULL; int bs=-1; long want=atol(tk+3);
